@@ -11,6 +11,62 @@ use crate::val::{Ev, Val};
 
 pub struct C06;
 
+/// A flat chain `t0 ± t1 ± t2 …` whose prefix sums hover around +-2^63 (and 0): most steps land within
+/// a few units of a boundary, on either side of it. Negative terms are written with a prefix minus
+/// (`+-5`) or bracketed; some chains use `+` only; some are padded with zero terms.
+pub fn boundary_walk(rng: &mut Rng) -> String {
+    const MAX: i128 = i64::MAX as i128;
+    const MIN: i128 = i64::MIN as i128;
+    let n = if rng.chance(1, 2) { 3 + rng.below(10) } else { 13 + rng.below(60) };
+    let plus_only = rng.chance(1, 2);
+    let term = |v: i128, rng: &mut Rng| -> String {
+        if v >= 0 {
+            v.to_string()
+        } else if v == MIN {
+            "(-9223372036854775807-1)".to_string()
+        } else if rng.chance(2, 3) {
+            format!("-{}", -v)
+        } else {
+            format!("(0-{})", -v)
+        }
+    };
+    let start: i128 = match rng.below(5) {
+        0 => MAX - rng.below(4) as i128,
+        1 => MIN + rng.below(4) as i128,
+        2 => 0,
+        3 => rng.range(-1000, 1000) as i128,
+        _ => (rng.next() as i64) as i128,
+    };
+    let mut total = start;
+    let mut s = if start == MAX && rng.chance(1, 4) { "@".to_string() } else { term(start, rng) };
+    if s.starts_with('-') {
+        s = format!("(0{})", s);
+    }
+    let mut alive = true;
+    for _ in 1..n {
+        // where the running total should go next
+        let target: i128 = match rng.below(8) {
+            0 | 1 | 2 => MAX - 2 + rng.below(6) as i128,
+            3 | 4 => MIN - 3 + rng.below(6) as i128,
+            5 => total,
+            6 => rng.range(-5, 5) as i128,
+            _ => (rng.next() as i64) as i128 / 2,
+        };
+        let mut delta = if alive { target - total } else { rng.range(-3, 3) as i128 };
+        delta = delta.clamp(MIN, MAX);
+        let minus = !plus_only && rng.chance(1, 2);
+        let t = if minus { -delta } else { delta };
+        let t = t.clamp(MIN, MAX);
+        s.push(if minus { '-' } else { '+' });
+        s.push_str(&term(t, rng));
+        total = if minus { total - t } else { total + t };
+        if total > MAX || total < MIN {
+            alive = false; // the chain has overflowed: the rest is small change
+        }
+    }
+    s
+}
+
 impl Monitor for C06 {
     fn id(&self) -> &'static str {
         "C06"
@@ -84,6 +140,26 @@ impl Monitor for C06 {
                 ctx.check(&Case::new(ev, "boundary", &s, Val::I(ph)), &|c, st| self.judge(c, st));
             }
         }
+        // flat chains of + and - whose running total walks along the range boundaries: every prefix sum
+        // is an intermediate result, so regrouping a chain (pairwise or balanced summation, a fused
+        // accumulator) shows as a wrong Ok or a wrong Err (seeded change C06-r8: runs of 16 or more
+        // operands folded as a balanced tree)
+        let nw = ctx.tier.pick(60_000u64, 1_200_000);
+        for i in 0..nw {
+            if ctx.mine() {
+                let mut rng = ctx.rng("walk", i);
+                let s = boundary_walk(&mut rng);
+                let ph = if s.contains('@') { i64::MAX - rng.below(3) as i64 } else { 0 };
+                let n_terms = s.matches(|c| c == '+' || c == '-').count();
+                ctx.check(&Case::new(ev, "walk", &s, Val::I(ph)), &|c, st| {
+                    let v = self.judge(c, st);
+                    if let Verdict::Pass { .. } = v {
+                        st.inc(if n_terms >= 16 { "walks_confirmed.16+" } else { "walks_confirmed.short" });
+                    }
+                    v
+                });
+            }
+        }
         // random trees
         let poolc = pool.clone();
         let leaf = move |rng: &mut Rng| -> Ast {
@@ -139,6 +215,6 @@ impl Monitor for C06 {
         vec!["overflowing << and MIN % -1 accept the stated value or Err; exponents outside 0..2^32-1 and n! for n<0 are unspecified for the value but still compared across build configurations"]
     }
     fn floors(&self, _t: Tier) -> Vec<(String, u64)> {
-        vec![("required_errors_observed".into(), 5_000), ("by_outcome.ok".into(), 20_000), ("config_blocks_compared".into(), 20)]
+        vec![("required_errors_observed".into(), 5_000), ("by_outcome.ok".into(), 20_000), ("config_blocks_compared".into(), 20), ("walks_confirmed.16+".into(), 5_000), ("walks_confirmed.short".into(), 5_000)]
     }
 }
